@@ -6,7 +6,7 @@ use futures::TryStreamExt;
 
 use super::*;
 use crate::array::{
-    Array, ArrayBuilder, ArrayBuilderImpl, ArrayImpl, BoolArrayBuilder, DataChunk,
+    Array, ArrayBuilder, ArrayBuilderImpl, BoolArrayBuilder, DataChunk,
     DataChunkBuilder, RowRef,
 };
 use crate::types::{DataType, DataValue};
@@ -46,10 +46,7 @@ impl NestedLoopJoinExecutor {
                     let values = left_row.values().chain(right_row.values());
                     if let Some(chunk) = builder.push_row(values) {
                         // evaluate filter bitmap
-                        let ArrayImpl::Bool(a) = Evaluator::new(&self.condition).eval(&chunk)?
-                        else {
-                            panic!("join condition should return bool");
-                        };
+                        let a = Evaluator::new(&self.condition).eval_condition(&chunk)?;
                         yield chunk.filter(a.true_array());
                         filter_builder.append(&a);
                     }
@@ -62,9 +59,7 @@ impl NestedLoopJoinExecutor {
         // take rest of data
         if let Some(chunk) = builder.take() {
             // evaluate filter bitmap
-            let ArrayImpl::Bool(a) = Evaluator::new(&self.condition).eval(&chunk)? else {
-                panic!("join condition should return bool");
-            };
+            let a = Evaluator::new(&self.condition).eval_condition(&chunk)?;
             yield chunk.filter(a.true_array());
             filter_builder.append(&a);
         }
@@ -146,10 +141,7 @@ impl NestedLoopSemiJoinExecutor {
                     let left_chunk = self.left_row_to_chunk(&left_row, right_chunk.cardinality());
                     let join_chunk = left_chunk.row_concat(right_chunk.clone());
                     // evaluate filter bitmap
-                    let ArrayImpl::Bool(a) = Evaluator::new(&self.condition).eval(&join_chunk)?
-                    else {
-                        panic!("join condition should return bool");
-                    };
+                    let a = Evaluator::new(&self.condition).eval_condition(&join_chunk)?;
                     exists |= a.true_array().iter().any(|v| *v);
                     if exists && !self.anti {
                         if let Some(chunk) = builder.push_row(left_row.values()) {
